@@ -6,7 +6,8 @@
      markupsafe.escape (Jinja2's "e" filter), html.escape (simpleTAL's attribute / string escaper)
 
    as the code stands after the proposed repairs notes/C12/fix-1.diff (setImageData leaves text that names no image alone;
-   [fixed = false] is the code before it) and fix-2.diff (layout templates pipe document text in attribute values through "e").
+   [fixed = false] is the code before it), fix-2.diff (layout templates pipe document text in attribute values through "e")
+   and fix-3.diff (the tag clean-ups of HTML5 / XHTML.processFileContent use ASCII character classes).
 
    Strings are lists of code points (N).  Python's str.replace(one character, string) is [replace_char]; re.sub with the image
    placeholder pattern is [sub_placeholder] (leftmost match, greedy \S+ with explicit backtracking, optional units group);
@@ -220,6 +221,127 @@ Definition post (fixed : bool) (imgs : imgtable) (hi : bool) (s : str) : option 
   end.
 
 (* ------------------------------------------------------------------------------------------------ *)
+(* HTML5.processFileContent / XHTML.processFileContent: the tag-level clean-ups that follow PageTemplate.processFileContent,
+   as the code stands after fix-3 (re.A: \s, \b and case folding are ASCII, as HTML syntax is):
+     R0 (XHTML)  re.compile(r'(<(?:hr|br|img|link|meta|col)\b.*?)\s*/?\s*(>)', re.I|re.S|re.A).sub(r'\1 /\2', s)
+     R1          re.compile(r'<p>\s*</p>', re.I|re.A).sub(r'', s)
+     R2          re.compile(r'(<(td|th)\b[^>]*>)\s*(</\2>)', re.I|re.A).sub(r'\1&nbsp;\3', s)
+   Each is a left-to-right scan: at a match emit the replacement and continue after it, else copy one character. *)
+
+Definition is_ws_ascii (c : N) : bool := ((9 <=? c) && (c <=? 13)) || (c =? 32).
+Definition is_word (c : N) : bool := is_alnum c || (c =? 95).
+Definition lower (c : N) : N := if (65 <=? c) && (c <=? 90) then c + 32 else c.
+
+(* p is lower case *)
+Fixpoint prefix_ci (p s : str) : bool :=
+  match p, s with
+  | [], _ => true
+  | x :: p', y :: s' => (x =? lower y) && prefix_ci p' s'
+  | _ :: _, [] => false
+  end.
+
+Definition ws_run (s : str) : nat := length (fst (span is_ws_ascii s)).
+(* \b after a word character: the next character is not a word character (or there is none) *)
+Definition at_boundary (s : str) : bool := match s with c :: _ => negb (is_word c) | [] => true end.
+
+Definition r1_match (s : str) : option nat :=
+  if prefix_ci [60; 112; 62] s then
+    let t := skipn 3 s in
+    let w := ws_run t in
+    if prefix_ci [60; 47; 112; 62] (skipn w t) then Some (3 + w + 4)%nat else None
+  else None.
+
+Definition e_nbsp : str := [38; 110; 98; 115; 112; 59].
+
+Definition r2_match (s : str) : option (str * nat) :=
+  match s with
+  | 60 :: a :: b :: t =>
+      if (lower a =? 116) && ((lower b =? 100) || (lower b =? 104)) && at_boundary t then
+        let (attrs, t1) := span (fun c => negb (c =? 62)) t in
+        match t1 with
+        | 62 :: t2 =>
+            let w := ws_run t2 in
+            match skipn w t2 with
+            | 60 :: 47 :: a' :: b' :: 62 :: _ =>
+                if (lower a' =? lower a) && (lower b' =? lower b)
+                then Some ((60 :: a :: b :: attrs ++ [62]) ++ e_nbsp ++ [60; 47; a'; b'; 62], (3 + length attrs + 1 + w + 5)%nat)
+                else None
+            | _ => None
+            end
+        | _ => None
+        end
+      else None
+  | _ => None
+  end.
+
+(* \s*/?\s*>  at the start of u: the length matched *)
+Definition r0_tail (u : str) : option nat :=
+  let w1 := ws_run u in
+  let u1 := skipn w1 u in
+  let sl := match u1 with 47 :: _ => 1%nat | _ => 0%nat end in
+  let u2 := skipn sl u1 in
+  let w2 := ws_run u2 in
+  match skipn w2 u2 with
+  | 62 :: _ => Some (w1 + sl + w2 + 1)%nat
+  | _ => None
+  end.
+
+(* .*? : the shortest prefix after which the tail matches *)
+Fixpoint r0_lazy (u : str) : option (nat * nat) :=
+  match r0_tail u with
+  | Some l => Some (0%nat, l)
+  | None =>
+      match u with
+      | [] => None
+      | _ :: u' => match r0_lazy u' with Some (k, l) => Some (S k, l) | None => None end
+      end
+  end.
+
+Definition r0_names : list str :=
+  [[104; 114]; [98; 114]; [105; 109; 103]; [108; 105; 110; 107]; [109; 101; 116; 97]; [99; 111; 108]].
+
+Fixpoint r0_name (names : list str) (t : str) : option nat :=
+  match names with
+  | [] => None
+  | n :: r => if prefix_ci n t && at_boundary (skipn (length n) t) then Some (length n) else r0_name r t
+  end.
+
+Definition r0_match (s : str) : option (str * nat) :=
+  match s with
+  | 60 :: t =>
+      match r0_name r0_names t with
+      | Some ln =>
+          match r0_lazy (skipn ln t) with
+          | Some (k, l) => Some (firstn (1 + ln + k) s ++ [32; 47; 62], (1 + ln + k + l)%nat)
+          | None => None
+          end
+      | None => None
+      end
+  | _ => None
+  end.
+
+Fixpoint sub_scan (m : str -> option (str * nat)) (skip : nat) (s : str) {struct s} : str :=
+  match s with
+  | [] => []
+  | c :: r =>
+      match skip with
+      | S k => sub_scan m k r
+      | O =>
+          match m s with
+          | Some (rep, L) => rep ++ sub_scan m (L - 1) r
+          | None => c :: sub_scan m 0 r
+          end
+      end
+  end.
+
+Definition r1 (s : str) : str := sub_scan (fun x => match r1_match x with Some L => Some ([], L) | None => None end) 0 s.
+Definition r2 (s : str) : str := sub_scan r2_match 0 s.
+Definition r0 (s : str) : str := sub_scan r0_match 0 s.
+
+Definition post_html5 (s : str) : str := r2 (r1 s).
+Definition post_xhtml (s : str) : str := r2 (r1 (r0 s)).
+
+(* ------------------------------------------------------------------------------------------------ *)
 (* Renderable.__str__ over an abstract document tree and an abstract table of templates.
 
    A template is a list of pieces; what Jinja2 / simpleTAL do with an expression is abstracted to the piece kind
@@ -399,6 +521,15 @@ Definition run_case (v : val) : val :=
           | None => v_bad_input
           end
       | _, _ => v_bad_input
+      end
+  | VL [VI 9%Z; which; hi; s] =>         (* HTML5 (0) / XHTML (1) processFileContent, no images *)
+      match getB which, getB hi, getNs s with
+      | Some w, Some h, Some t =>
+          match post true [] h t with
+          | Some o => VL [VI 0%Z; ofNs (if w then post_xhtml o else post_html5 o)]
+          | None => v_crash 0
+          end
+      | _, _, _ => v_bad_input
       end
   | VL [VI 8%Z; hi; imgs; s] =>          (* the code before fix-1, for the replay of the finding *)
       match getB hi, get_imgs imgs, getNs s with
